@@ -37,7 +37,9 @@ LEVEL_TEXT = (
     "(about 2*10^5 cases per quick run, every boundary of half-year/New Year/Feb 28-29-Mar 1 in leap, non-leap and century years "
     "+-{0,1,59,60,86400} s, TZ=UTC and two fixed-offset zones in subprocesses, malformed streams), the real Client.list/Client.stat "
     "glue on stubbed streams, plus simnet sessions (real Server and Client) against MemoryPathIO, PathIO and AsyncPathIO with "
-    "os.utime-controlled mtimes, MLSD, LIST, the 502 fallback and stat()."
+    "os.utime-controlled mtimes, MLSD, LIST, the 502 fallback and stat(), listings with a backend fault at one entry "
+    "(C07_mlsd_complete_or_fails: a completed listing is complete, a fault fails the command) and listing commands with other "
+    "commands between the 150 mark and the data connection; zones with DST at function level around every transition."
 )
 LEVEL_NOTE = (
     "Trusted: Coq kernel; extraction cross-checked with vm_compute; harness. Modelled, not verified: glibc strftime (%b %e %H %M %Y "
@@ -46,7 +48,9 @@ LEVEL_NOTE = (
     "(integers only in the model; fractional clocks are exercised against the oracle only), locale switching (setlocale)."
 )
 TRUSTED = [
-    "time zone = fixed offset (local = UTC + off); DST transitions and tzdata are outside the model",
+    "time zone in the theorems = fixed offset (local = UTC + off), plus the two-offset corollary C07_ls_date_recent_two_offsets_partial and "
+    "C07_ls_date_old_or_future (any client clock); zones with DST are covered by the function-level DST streams only (real build_list_mtime "
+    "under TZ=<POSIX rule> in a subprocess around every transition of 2-4 years, three zones incl. the southern hemisphere); localtime/tzdata unverified",
     "clocks and mtimes are integers in the model (gmtime/localtime floor floats; the comparison now - HALF < mtime <= now "
     "on fractional values is exercised against the oracle only)",
 ]
@@ -484,8 +488,16 @@ def tz_worker():
     import aioftp
 
     out = []
-    for mtime, now in json.load(sys.stdin):
-        out.append([aioftp.Server.build_list_mtime(mtime, now), aioftp.Server._format_mlsx_time(mtime)])
+    for row in json.load(sys.stdin):
+        mtime, now = row[0], row[1]
+        try:
+            a, b = aioftp.Server.build_list_mtime(mtime, now), aioftp.Server._format_mlsx_time(mtime)
+        except Exception as e:  # an exception of the (mutated) implementation is an observation
+            a, b = "!" + repr(e), "!" + repr(e)
+        o = [a, b, list(real_time.localtime(mtime)[:6])]
+        if len(row) > 2:
+            o.append(list(real_time.localtime(row[2])[:6]))
+        out.append(o)
     json.dump(out, sys.stdout)
 
 
@@ -500,6 +512,87 @@ def run_tz_worker(zone, pairs):
     if p.returncode != 0:
         raise RuntimeError("tz worker failed: " + p.stderr[-800:])
     return json.loads(p.stdout)
+
+
+# --------------------------------------------------------------------------------------------
+# zones with DST (POSIX TZ strings: no tzdata needed): the offset at mtime and at "now" may differ
+DST_ZONES = ["CET-1CEST,M3.5.0,M10.5.0/3", "EST5EDT,M3.2.0,M11.1.0", "AEST-10AEDT,M10.1.0,M4.1.0/3"]
+
+
+def dst_transitions(zone, years):
+    """UTC instants (to the second) at which the zone's offset changes, found by asking the zone itself"""
+    grid = []
+    for y in years:
+        t0 = ymd(y, 1, 1)
+        grid += list(range(t0, ymd(y + 1, 1, 1), 3600))
+    out = run_tz_worker(zone, [[t, t] for t in grid])
+    offs = [calendar.timegm(tuple(o[2]) + (0, 0, 0)) - t for t, o in zip(grid, out)]
+    return [grid[i] for i in range(1, len(grid)) if offs[i] != offs[i - 1]]
+
+
+def gen_dst_cases(rng, trans, thorough):
+    cases = []
+    d_now = [-7200, -3600, -1, 0, 1, 600, 1800, 3599, 3600, 3601, 5400, 7200, DAY]
+    d_age = [0, 1, 60, 1200, 1800, 3540, 3599, 3600, 3660, 7140, 7200, DAY, 30 * DAY]
+    for T in trans:
+        for dn in d_now:
+            now = T + dn
+            for age in d_age + [SPEC_HALF - DAY - 1, SPEC_HALF - DAY - 3601, SPEC_HALF, SPEC_HALF + 3600, -60, -3600, -DAY]:
+                for sk in (SKEWS if thorough else [0, rng.choice(SKEWS)]):
+                    cases.append((now - age, now, now + sk))
+            for dm in (-3599, -1800, -1, 0, 1, 1800, 3599):
+                cases.append((T + dm, now, now + rng.choice(SKEWS)))
+        for _ in range(40 if thorough else 10):  # a file from around the other transition, listed around this one
+            o = rng.choice(trans)
+            cases.append((o + rng.randrange(-7200, 7200), T + rng.randrange(-7200, 7200), T + 7200 + rng.choice(SKEWS)))
+    return [(m, n, n2) for m, n, n2 in cases if n <= n2]
+
+
+def check_dates_dst(ctx, zone, cases):
+    """the (mtime, now, client now) plane in a zone with DST: the real formatter runs under TZ=zone in a subprocess, which
+    also reports the zone's wall clock of mtime and of the client's now; oracle = that wall clock to the format's precision"""
+    from .. import sx
+
+    H, T = (as_int(x) for x in consts())
+    out = run_tz_worker(zone, [[m, n, n2] for m, n, n2 in cases])
+    offs_m = [calendar.timegm(tuple(o[2]) + (0, 0, 0)) - m for (m, _, _), o in zip(cases, out)]
+    mo = ctx.model([(10, [H, om, m, n]) for (m, n, _), om in zip(cases, offs_m)])
+    nows = [datetime.datetime(*o[3]) for o in out]
+    strs = [o[0] for o in out]
+    res = [impl_parse_ls_date(s_, d) if not s_.startswith("!") else None for s_, d in zip(strs, nows)]
+    mo2 = ctx.model([(11, [H, T, s_, dt6(d)]) for s_, d in zip(strs, nows)])
+    regions, nshift = {}, 0
+    for (m, n, n2), o, om, s_, d, r, ms, mp in zip(cases, out, offs_m, strs, nows, res, mo, mo2):
+        ctx.case(("date-dst", zone, m, n, n2))
+        ctx.traces_impl += 1
+        on = calendar.timegm(tuple(o[3]) + (0, 0, 0)) - n2
+        nshift += on != om
+        if sx.txt(ms) != s_:
+            ctx.disagree("build_list_mtime/" + zone, {"mtime": m, "now": n, "offset_at_mtime": om}, sx.txt(ms), s_)
+        mr = sx.txt(mp[0]) if mp else None
+        if not s_.startswith("!") and mr != r:
+            ctx.disagree("parse_ls_date/" + zone, {"s": s_, "now": dt6(d)}, mr, r)
+        local = datetime.datetime(*o[2])
+        if n - SPEC_HALF + DAY < m <= n:
+            want, region = (fmt14(local, "minute"), "recent") if n <= n2 <= n + 3600 else (None, "recent-clock-outside")
+        elif m <= n - SPEC_HALF or m > n:
+            want, region = fmt14(local, "day"), "old" if m <= n else "future"
+        else:
+            want, region = None, "window"
+        regions[region] = regions.get(region, 0) + 1
+        if want is not None and r != want:
+            ctx.violation(
+                f"LIST date under TZ={zone}: parse(format(mtime, now), now') = {r} but the backend's mtime gives {want} ({region})",
+                {"key": "c07-ls-date-dst", "mtime": m, "now": n, "client_now": n2, "zone": zone, "formatted": s_, "parsed": r,
+                 "expected": want, "region": region, "offset_at_mtime": om, "offset_at_client_now": on},
+            )
+        w14 = fmt14(naive(m), "second")
+        if o[1] != w14:
+            ctx.violation("MLSx time is not the UTC time of the backend's mtime",
+                          {"key": "c07-mlsx-time", "mtime": m, "zone": zone, "got": o[1], "expected": w14})
+    for k, v in regions.items():
+        ctx.count(f"dates[dst {zone}]:region={k}", v)
+    ctx.count(f"dates[dst {zone}]:offset at mtime != offset at client now", nshift)
 
 
 # --------------------------------------------------------------------------------------------
@@ -591,6 +684,7 @@ def correspondence(ctx, budget=None):
         "A case is non-trivial when its input is distinct (hash)."
     )
 
+    _t_mark(ctx, "a-calendar")
     # ---------------- (a) calendar
     es = []
     for a in anchors([1, 4, 100, 400, 1000, 1582, 1600, 1900, 1904, 1969, 1970, 1972, 2000, 2001, 2023, 2024, 2038, 2100, 2400, 9996, 9999]):
@@ -639,6 +733,7 @@ def correspondence(ctx, budget=None):
     ctx.count("civil:leap/month-length pairs", len(ys) * 12)
     ctx.count("civil:days_from_civil", len(dcs))
 
+    _t_mark(ctx, "b-dates")
     # ---------------- (b) the date plane, UTC
     cases, kinds = gen_date_cases(rng, thorough)
     smp = check_dates(ctx, cases, kinds, 0)
@@ -664,6 +759,7 @@ def correspondence(ctx, budget=None):
                            "parsed": r, "expected": want, "region": "fractional"})
     ctx.count("dates[utc]:fractional-clock (oracle only)", nfrac)
 
+    _t_mark(ctx, "b2-fixed-offset-zones")
     # other zones (subprocess): formatter under TZ, parser with the client's naive local now
     for zone, off in ZONES:
         sub = rng.sample(cases, min(len(cases), 30000 if thorough else 6000))
@@ -683,6 +779,18 @@ def correspondence(ctx, budget=None):
                 ctx.violation("MLSx time is not the UTC time of the backend's mtime",
                               {"key": "c07-mlsx-time", "mtime": m, "zone": zone, "got": w[1], "expected": want})
 
+    _t_mark(ctx, "b3-dst-zones")
+    # zones with DST: around every transition of several years (the offset at mtime and at "now" differ)
+    for zone in DST_ZONES if thorough else DST_ZONES[:2]:
+        try:
+            trans = dst_transitions(zone, [2019, 2024] if not thorough else [2019, 2023, 2024, 2025])
+            if not trans:
+                raise RuntimeError("no offset change found: the C library ignores POSIX TZ rules?")
+            check_dates_dst(ctx, zone, gen_dst_cases(rng, trans, thorough))
+        except Exception as e:
+            ctx.obligation_broken("tz-worker-dst", f"{zone}: {e!r}")
+
+    _t_mark(ctx, "c-strptime")
     # ---------------- (c) strptime / parse_ls_date on malformed strings
     fmts = {1: "%b %d %H:%M", 2: "%Y %b %d %H:%M", 3: "%b %d  %Y"}
     valid_strs = [s for _, s, _ in smp] + [impl_build_list_mtime(m, n) for m, n, _ in rng.sample(cases, 300)]
@@ -727,6 +835,7 @@ def correspondence(ctx, budget=None):
     ctx.count("parse_ls_date:ValueError", nerr)
     xcheck += [(11, [H, T, s, dt6(d)], o) for (s, d), o in list(zip(pl_cases, mo))[:15]]
 
+    _t_mark(ctx, "d-mlsx")
     # ---------------- (d) MLSx
     ents = []
     for _ in range(8000 if thorough else 2500):
@@ -798,6 +907,7 @@ def correspondence(ctx, budget=None):
     ctx.sample({"stream": "mlsx", "line": lines[0]})
     xcheck += [(21, [l], o) for (l, _), o in list(zip(allp, mo))[:10]]
 
+    _t_mark(ctx, "e-list")
     # ---------------- (e) LIST
     fm_modes = list(range(4096)) + [gen_mode(rng) for _ in range(500)] + [m << 12 for m in range(16)]
     mo = ctx.model([(25, [m]) for m in fm_modes])
@@ -932,6 +1042,7 @@ def correspondence(ctx, budget=None):
     xcheck += [(22, [H, 0, n, [sz, 0, m, nl, mode], name], o)
                for (name, sz, m, n, n2, mode, nl), o in zip(lents[:8], lmo[:8])]
 
+    _t_mark(ctx, "g-glue")
     # ---------------- (g) the client's glue: Client.list() loop / parser chain / fallback, Client.stat() over MLST
     nglue = 0
     glue_client = aioftp.Client()
@@ -1035,6 +1146,7 @@ def correspondence(ctx, budget=None):
             ctx.disagree("Server.mlst reply", [name, sz, ct, mt, kind, ex], [sx.txt(x) for x in o], im)
     ctx.count("glue:Client.list loop / plan / Client.stat(MLST) / Server.mlst cases", nglue)
 
+    _t_mark(ctx, "f-wire")
     # ---------------- (f) wire-level sessions on simnet
     try:
         wire_level(ctx, tp, thorough)
@@ -1043,7 +1155,9 @@ def correspondence(ctx, budget=None):
 
         ctx.obligation_broken("wire-level", traceback.format_exc()[-1200:])
 
+    _t_mark(ctx, "z-vm-crosscheck")
     ok, out = core.vm_crosscheck(EXTRACT, xcheck[:100])
+    _t_mark(ctx, "end")
     ctx.extra["vm_compute_crosscheck"] = {"cases": len(xcheck[:100]), "agree": ok}
     if not ok:
         ctx.obligation_broken("extraction-crosscheck", out)
@@ -1052,11 +1166,31 @@ def correspondence(ctx, budget=None):
 # --------------------------------------------------------------------------------------------
 # wire level: the real aioftp.Server + aioftp.Client on simnet (in-memory network, virtual loop clock; the backends'
 # executor jobs run for real), three backends, os.utime-controlled mtimes on disk
+def _t_mark(ctx, label):
+    """wall time per stream (ctx.extra['stream_wall_s']): label -> seconds spent since the previous mark"""
+    now = real_time.time()
+    st = ctx.extra.setdefault("_t_state", [None, now])
+    walls = ctx.extra.setdefault("stream_wall_s", {})
+    if st[0] is not None:
+        walls[st[0]] = round(walls.get(st[0], 0) + now - st[1], 1)
+    st[0], st[1] = label, now
+    if label == "end":
+        ctx.extra.pop("_t_state", None)
+
+
 def wire_level(ctx, tp, thorough):
     from .. import simnet
 
     rng = ctx.rng
     simnet.run(lambda net: _wire(ctx, tp, rng, thorough, net), wall_timeout=240 if thorough else 100)
+    for part in (_wire_faults, _wire_interleave):
+        _t_mark(ctx, "f-wire:" + part.__name__)
+        try:
+            simnet.run(lambda net, _p=part: _p(ctx, tp, rng, thorough, net), wall_timeout=200 if thorough else 80)
+        except Exception:
+            import traceback
+
+            ctx.obligation_broken("wire-level:" + part.__name__, traceback.format_exc()[-1200:])
 
 
 def tree_spec(rng, now, n):
@@ -1277,6 +1411,13 @@ async def _wire(ctx, tp, rng, thorough, net):
                                     want = fmt14(naive(e["mtime"]), "second")
                                 else:
                                     want, _ = date_oracle(e["mtime"], now, now2, 0)
+                                    twins = [t for t in truth if t is not e and t["name"].lstrip() == name]
+                                    if twins and any(info.get("size") == str(t["size"]) and info.get("type") == t["kind"] for t in twins):
+                                        # F13a: another entry's name is this one plus leading whitespace; LIST shows both as `name`
+                                        ctx.violation(f"{backend} stat({name!r}) over the LIST fallback returns the row of {twins[0]['name']!r}",
+                                                      {"key": "c07-list-name-leading-whitespace", "backend": backend, "name": name,
+                                                       "twin": twins[0]["name"], "wire": "stat-fallback"})
+                                        continue
                                 if info.get("type") != e["kind"] or (want is not None and info.get("modify") != want) or info.get("size") != str(e["size"]):
                                     ctx.violation(f"{backend} {flavour} stat({name!r}): {dict(info)} but the backend has {e}",
                                                   {"key": "c07-wire-mlst" if flavour == "full" else "c07-wire-stat-fallback", "backend": backend,
@@ -1295,6 +1436,255 @@ async def _wire(ctx, tp, rng, thorough, net):
                 shutil.rmtree(tdir, ignore_errors=True)
     ctx.count("wire(simnet):listing sessions (3 backends x {MLSD, LIST, fallback from 502})", nsess)
     ctx.count("wire(simnet):stat() calls (MLST / listing fallback)", nstat)
+
+
+# --------------------------------------------------------------------------------------------
+# backend faults at ONE entry of a listing (simnet): a completed listing must be the complete directory
+FAULT_KINDS = ["eio", "eacces", "estale", "valueerror", "slow"]
+
+
+def faulty_factory(base, victim, op, kind):
+    """a subclass of the shipped backend whose `op` (stat / is_file / is_dir / exists) fails for the entry called `victim`;
+    universal_exception (and with_timeout for the slow kind) stay around it as in the source"""
+    import errno
+
+    import aioftp
+    from aioftp.common import with_timeout
+    from aioftp.pathio import universal_exception
+
+    orig = getattr(base, op)
+
+    async def leaf(self, path, *a, **k):
+        if pathlib.PurePath(path).name == victim:
+            if kind == "slow":
+                await asyncio.sleep(1000)
+            if kind == "valueerror":
+                raise ValueError("injected")
+            raise OSError({"eio": errno.EIO, "eacces": errno.EACCES, "estale": errno.ESTALE}.get(kind, errno.EIO), "injected")
+        return await orig(self, path, *a, **k)
+
+    leaf.__name__ = op
+    wrapped = universal_exception(with_timeout(leaf)) if kind == "slow" else universal_exception(leaf)
+    return type("Faulty" + base.__name__, (base,), {op: wrapped})
+
+
+async def _wire_faults(ctx, tp, rng, thorough, net):
+    import io
+    import shutil
+
+    import aioftp
+    from aioftp.pathio import Node
+
+    from .. import core
+
+    now = ymd(2024, 3, 1, 0, 0, 30)
+    tp.now = now
+    set_client_now(naive(now))
+    tmp_root = core.BUILD / "tmp"
+    tmp_root.mkdir(parents=True, exist_ok=True)
+    nrun = ncompleted = nfailed = 0
+    plans = []
+    for _ in range(40 if thorough else 14):
+        n = rng.choice([1, 2, 4, 7])
+        plans.append((n, rng.randrange(n), rng.choice(["stat", "stat", "stat", "is_file", "exists"]), rng.choice(FAULT_KINDS),
+                      rng.choice(["memory", "pathio", "asyncpathio"]), rng.choice(["MLSD", "LIST", None])))
+    plans += [(3, 1, "stat", "eio", "memory", "MLSD"), (3, 1, "stat", "eio", "memory", "LIST"), (4, 3, "stat", "slow", "asyncpathio", "MLSD"),
+              (2, 0, "stat", "eacces", "pathio", None)]
+    # which backend calls each worker makes per (file) entry: a fault elsewhere is never reached
+    CALLS = {"MLSD": {"exists", "stat", "is_file"}, "LIST": {"exists", "stat"}, None: {"exists", "stat"}}
+    mo = ctx.model([(35, [[1 if i == k and op in CALLS[raw] else 0 for i in range(n)]]) for n, k, op, _, _, raw in plans] + [(35, [[0, 0, 0]])])
+    if mo[-1] != 1:
+        ctx.disagree("worker_lines", "no fault", mo[-1], 1)
+    for pi, ((n, k, op, kind, backend, raw), mdl) in enumerate(zip(plans, mo)):
+        if kind == "slow" and backend != "asyncpathio":
+            backend = "asyncpathio"  # only AsyncPathIO applies path_timeout
+        names = []
+        while len(names) < n:
+            nm = gen_name(rng)
+            if nm not in names and nm == nm.strip() and len(nm.encode()) < 100:
+                names.append(nm)
+        victim = names[k]
+        tdir = None
+        if backend == "memory":
+            root = Node("dir", "/", content=[], ctime=1, mtime=1)
+            d = Node("dir", "d", content=[], ctime=1, mtime=1)
+            root.content.append(d)
+            for i, nm in enumerate(names):
+                d.content.append(Node("file", nm, ctime=now - 100, mtime=now - 50 - i, content=io.BytesIO(b"x" * (i + 1))))
+            base_cls = faulty_factory(aioftp.MemoryPathIO, victim, op, kind)
+            factory = lambda *a, state=None, _root=root, _c=base_cls, **kw: _c(*a, state=[_root], **kw)
+            base = "/"
+        else:
+            tdir = tmp_root / f"c07f-{os.getpid()}-{pi}"
+            shutil.rmtree(tdir, ignore_errors=True)
+            (tdir / "d").mkdir(parents=True)
+            ok = True
+            for i, nm in enumerate(names):
+                try:
+                    (tdir / "d" / nm).write_bytes(b"x" * (i + 1))
+                except OSError:
+                    ok = False
+            if not ok:
+                shutil.rmtree(tdir, ignore_errors=True)
+                continue
+            factory = faulty_factory(aioftp.PathIO if backend == "pathio" else aioftp.AsyncPathIO, victim, op, kind)
+            base = str(tdir)
+        if raw == "MLSD" and op == "exists":
+            pass  # MLSD calls exists() too
+        server = aioftp.Server([aioftp.User(base_path=base, home_path="/")], path_io_factory=factory, path_timeout=2 if kind == "slow" else None)
+        if raw is None:
+            del server.commands_mapping["mlsd"], server.commands_mapping["mlst"]
+        await server.start("127.0.0.1", 0)
+        port = server.server.sockets[0].getsockname()[1]
+        case = {"entries": names, "victim": victim, "op": op, "fault": kind, "backend": backend, "raw_command": raw}
+        ctx.case(("wire-fault", tuple(names), k, op, kind, backend, raw))
+        ctx.traces_impl += 1
+        nrun += 1
+        client = aioftp.Client()
+        outcome = None
+        try:
+            await client.connect("127.0.0.1", port)
+            await client.login()
+            got = await client.list("d", raw_command=raw)
+            outcome = ["completed", sorted(str(p_.name) for p_, _ in got)]
+        except (aioftp.StatusCodeError, ConnectionError, asyncio.TimeoutError, ValueError) as e:
+            outcome = ["failed", type(e).__name__]
+        except Exception as e:  # noqa: BLE001 - observation
+            outcome = ["failed", repr(e)[:200]]
+        finally:
+            try:
+                client.close()
+            except Exception:
+                pass
+            await server.close()
+            if tdir is not None:
+                shutil.rmtree(tdir, ignore_errors=True)
+        if outcome[0] == "completed":
+            ncompleted += 1
+            missing = [nm for nm in names if nm not in outcome[1]]
+            invented = [g for g in outcome[1] if g not in names]
+            if missing or invented:
+                ctx.violation(f"{backend} list(raw_command={raw!r}) completed (2xx) without entries {missing!r} (invented {invented!r}) although "
+                              f"the directory has {names!r}: {op}() of {victim!r} failed ({kind}) and the entry was dropped silently",
+                              dict(case, key="c07-wire-fault-entry-dropped", listed=outcome[1]))
+            if mdl != 1:
+                ctx.disagree("wire-fault: listing outcome", case, "fails (451)", outcome)
+        else:
+            nfailed += 1
+            if mdl != 0:
+                ctx.disagree("wire-fault: listing outcome", case, "completes", outcome)
+    ctx.count("wire(simnet):listings with a backend fault at one entry", nrun)
+    ctx.count("wire(simnet):... command failed (as the model says)", nfailed)
+    ctx.count("wire(simnet):... listing completed", ncompleted)
+
+
+# --------------------------------------------------------------------------------------------
+# commands between the 150 mark and the data connection (simnet, raw control connection): the listing is that of the
+# directory the command named when it was accepted
+IL_TREE = {"a": {"sub": {"x.txt": 3, "y.txt": 40}, "only-a": 7}, "b": {"sub": {"z.txt": 500}, "only-b": 1, "sub2": {}}, "top": 9}
+
+
+def il_resolve(cwd, arg):
+    p = pathlib.PurePosixPath(cwd) / arg if arg else pathlib.PurePosixPath(cwd)
+    parts = []
+    for x in p.parts[1:]:
+        if x == "..":
+            parts = parts[:-1]
+        elif x != ".":
+            parts.append(x)
+    return parts
+
+
+def il_dir(parts):
+    node = IL_TREE
+    for x in parts:
+        node = node[x] if isinstance(node, dict) and x in node else None
+        if node is None:
+            return None
+    return node if isinstance(node, dict) else None
+
+
+async def _wire_interleave(ctx, tp, rng, thorough, net):
+    import io
+
+    import aioftp
+    from aioftp.pathio import Node
+
+    from .. import ftpsim, simnet
+
+    now = ymd(2024, 3, 1, 0, 0, 30)
+    tp.now = now
+    set_client_now(naive(now))
+
+    def build(name, v):
+        if isinstance(v, dict):
+            return Node("dir", name, content=[build(k_, x) for k_, x in v.items()], ctime=now - 9, mtime=now - 8)
+        return Node("file", name, content=io.BytesIO(b"x" * v), ctime=now - 9, mtime=now - 8)
+
+    combos = []
+    for verb in ("MLSD", "LIST"):
+        for cwd0, arg in (("/a", "sub"), ("/a", ""), ("/b", "sub"), ("/a", "../b/sub"), ("/", "a"), ("/b", "sub2"), ("/a", "/b")):
+            for between in ([], [("CWD", "/b")], [("CWD", "/a")], [("CDUP", "")], [("CWD", "/b"), ("CWD", "sub")], [("PWD", "")], [("CWD", "/")]):
+                combos.append((verb, cwd0, arg, between))
+    if _IL_ONLY is not None:
+        combos = [_IL_ONLY]
+    elif not thorough:
+        fixed = [c for c in combos if c[1:] in (("/a", "sub", [("CWD", "/b")]), ("/a", "", [("CWD", "/b")]))]
+        combos = fixed + rng.sample(combos, 24)
+    client = aioftp.Client()
+    nrun = n2xx = 0
+    for verb, cwd0, arg, between in combos:
+        root = build("/", IL_TREE)
+        factory = lambda *a, state=None, _root=root, **kw: aioftp.MemoryPathIO(*a, state=[_root], **kw)
+        server = aioftp.Server([aioftp.User(base_path="/", home_path="/")], path_io_factory=factory, wait_future_timeout=5)
+        await server.start("127.0.0.1", 0)
+        case = {"verb": verb, "cwd": cwd0, "arg": arg, "between": [list(b) for b in between]}
+        ctx.case(("wire-interleave", verb, cwd0, arg, repr(between)))
+        ctx.traces_impl += 1
+        nrun += 1
+        ob = {}
+        try:
+            raw = await simnet.Raw.connect(net, server.server.sockets[0].getsockname()[1])
+            await raw.drain_replies()
+            await raw.send("USER anonymous")
+            await raw.send("PASS x")
+            ob["cwd0"] = simnet.final_codes(await raw.send("CWD " + cwd0))
+            port = ftpsim.parse_passive(await raw.send("PASV"))
+            ob["accept"] = simnet.final_codes(await raw.send(f"{verb} {arg}".rstrip()))
+            ob["between"] = [simnet.final_codes(await raw.send(f"{bv} {ba}".rstrip())) for bv, ba in between]
+            r, w = await net.open_connection("127.0.0.1", port)
+            await net.settle()
+            data = bytes(r._buffer)
+            w.close()
+            ob["after"] = simnet.final_codes(await raw.drain_replies())
+            ob["lines"] = [l for l in data.decode("utf-8").split("\r\n") if l]
+            raw.close()
+        except Exception as e:  # noqa: BLE001 - observation
+            ob["error"] = repr(e)[:300]
+        finally:
+            await server.close()
+        want_dir = il_dir(il_resolve(cwd0, arg))
+        done = [c for c in ob.get("after", []) if c.startswith("2")]
+        if ob.get("accept") != ["150"] or not done or "error" in ob:
+            if want_dir is not None and "error" not in ob and ob.get("accept") == ["150"] and not done:
+                ctx.disagree("wire-interleave: outcome", case, "2xx", ob)
+            continue
+        n2xx += 1
+        set_client_now(naive(now))
+        rows = {}
+        try:
+            for l in ob["lines"]:
+                p_, info = (client.parse_mlsx_line if verb == "MLSD" else client.parse_list_line)(l.encode("utf-8") if verb == "LIST" else l)
+                rows[str(p_)] = (info.get("type"), int(info["size"]) if info.get("type") == "file" else None)
+        except Exception as e:  # noqa: BLE001
+            rows = {"!": repr(e)[:200]}
+        want = {k_: ("dir", None) if isinstance(v, dict) else ("file", v) for k_, v in (want_dir or {}).items()}
+        if want_dir is None or rows != want:
+            ctx.violation(f"'{verb} {arg}' was accepted (150) in {cwd0}, so it names /{'/'.join(il_resolve(cwd0, arg))} = {want}; after {between} and then "
+                          f"the data connection the completed listing ({done}) is {rows}",
+                          dict(case, key="c07-wire-interleave-wrong-directory", listed={k_: list(v) for k_, v in rows.items()} if "!" not in rows else rows))
+    ctx.count("wire(simnet):listing commands with commands between 150 and the data connection", nrun)
+    ctx.count("wire(simnet):... of which completed 2xx", n2xx)
 
 
 # --------------------------------------------------------------------------------------------
@@ -1335,6 +1725,96 @@ def replay_key(server, client, tp, key, now, r=None):
     return None
 
 
+class _ReplayCtx:
+    """collects what a wire stream reports while replaying one case"""
+
+    def __init__(self, rng):
+        self.rng, self.tier, self.hits, self.notes, self.traces_impl = rng, "quick", [], [], 0
+
+    def case(self, *a):
+        pass
+
+    def count(self, *a):
+        pass
+
+    def disagree(self, *a):
+        pass
+
+    def model(self, calls):
+        return [None for _ in calls]
+
+    def violation(self, what, replay):
+        self.hits.append((what, replay))
+
+
+def replay_wire(ctx, tp, key, r):
+    """re-run one recorded wire case (fault plan / interleaving) on the real code"""
+    import random
+
+    from .. import simnet
+
+    rc = _ReplayCtx(random.Random(0))
+    if key == "c07-wire-fault-entry-dropped":
+        async def main(net):
+            await _replay_fault(rc, tp, r)
+    else:
+        async def main(net):
+            await _replay_interleave(rc, tp, r, net)
+    simnet.run(main, wall_timeout=60)
+    for what, _ in rc.hits:
+        print(what)
+    return not rc.hits
+
+
+async def _replay_fault(rc, tp, r):
+    import io
+
+    import aioftp
+    from aioftp.pathio import Node
+
+    now = ymd(2024, 3, 1, 0, 0, 30)
+    tp.now = now
+    set_client_now(naive(now))
+    root = Node("dir", "/", content=[], ctime=1, mtime=1)
+    d = Node("dir", "d", content=[], ctime=1, mtime=1)
+    root.content.append(d)
+    for i, nm in enumerate(r["entries"]):
+        d.content.append(Node("file", nm, ctime=now - 100, mtime=now - 50 - i, content=io.BytesIO(b"x" * (i + 1))))
+    kind = r["fault"] if r["fault"] != "slow" else "eio"  # replayed on the in-memory backend
+    cls = faulty_factory(aioftp.MemoryPathIO, r["victim"], r["op"], kind)
+    server = aioftp.Server([aioftp.User(base_path="/", home_path="/")], path_io_factory=lambda *a, state=None, **kw: cls(*a, state=[root], **kw))
+    if r["raw_command"] is None:
+        del server.commands_mapping["mlsd"], server.commands_mapping["mlst"]
+    await server.start("127.0.0.1", 0)
+    client = aioftp.Client()
+    try:
+        await client.connect("127.0.0.1", server.server.sockets[0].getsockname()[1])
+        await client.login()
+        got = sorted(str(p_.name) for p_, _ in await client.list("d", raw_command=r["raw_command"]))
+        print("listing completed:", got)
+        if sorted(r["entries"]) != got:
+            rc.violation(f"completed listing {got} != directory {sorted(r['entries'])}", r)
+    except Exception as e:  # noqa: BLE001
+        print("listing failed:", repr(e)[:200])
+    finally:
+        client.close()
+        await server.close()
+
+
+async def _replay_interleave(rc, tp, r, net):
+    import random
+
+    global _IL_ONLY
+    _IL_ONLY = (r["verb"], r["cwd"], r["arg"], [tuple(b) for b in r["between"]])
+    try:
+        await _wire_interleave(rc, tp, rc.rng, False, net)
+    finally:
+        _IL_ONLY = None
+
+
+_IL_ONLY = None
+
+
 def replay(ctx, data):
     import aioftp
 
@@ -1351,6 +1831,13 @@ def replay(ctx, data):
         want, region = date_oracle(int(r["mtime"] // 1), r["now"], r["client_now"], r.get("off", 0))
         print(f"formatted {s!r} parsed {got} expected {want} ({region}); recorded zone {r.get('zone', 'utc')}")
         return want is None or got == want
+    if key in ("c07-wire-fault-entry-dropped", "c07-wire-interleave-wrong-directory"):
+        return replay_wire(ctx, tp, key, r)
+    if key == "c07-ls-date-dst":
+        o = run_tz_worker(r["zone"], [[r["mtime"], r["now"], r["client_now"]]])[0]
+        got = impl_parse_ls_date(o[0], datetime.datetime(*o[3])) if not o[0].startswith("!") else None
+        print(f"under TZ={r['zone']}: formatted {o[0]!r} parsed {got} expected {r['expected']} ({r['region']})")
+        return got == r["expected"]
     if key in ("c07-list-mode-S-or-T", "c07-list-name-leading-whitespace"):
         return replay_key(server, client, tp, key, r.get("now", 0), r)
     if key == "c07-list-roundtrip":
